@@ -21,7 +21,8 @@ def run(ctx):
         "quiescent moments only (the property says so): GetStats reads the counters one after the other",
         "channel backend writes succeed (go-diskqueue Put returns nil): a failing write in REQ / timeout / deferred scan loses the message "
         "and, on the REQ path, leaves the consumer's in_flight_count one too high — open finding chan-backend-write-fails (audit B3), "
-        "replayed by TestVerifE2PutFail with an injected write error; Lean: Model.ChanFault (putFail outcomes), "
+        "REQ 0 and timeout-scan paths replayed by TestVerifE2PutFail with an injected write error (the deferred-scan path has a Lean "
+        "witness only); Lean: Model.ChanFault (putFail outcomes; a hand-written extension no driver op or tie checks), "
         "Props.C13Full.C13_full_false_put_fault / put_fault_skews_client",
         "the property's formula AS WRITTEN (no sampled-out / ephemeral-drop term) is Props.C13Full.C13_full_partial: durable channel, no "
         "sampling drop in the run; it is refuted with a sampling consumer (C13_full_false_sampling) and on a full #ephemeral queue "
